@@ -1533,19 +1533,6 @@ func ruleAdmitClass(p *Prog, r *Result) {
 		f := c.Call.StaticCallee()
 		return f != nil && f.Name() == "ReturnType"
 	}
-	// the static type of the LEFT operand is the assumed one; other operands matter only through
-	// the helper's own comparisons with it (x.ReturnType() != ltype is assumed false)
-	isLeftRT := func(v ssa.Value) bool {
-		c, ok := v.(*ssa.Call)
-		if !ok || !isRT(v) {
-			return false
-		}
-		recv := c.Call.Value
-		if !c.Call.IsInvoke() && len(c.Call.Args) > 0 {
-			recv = c.Call.Args[0]
-		}
-		return p.derivesFromField(recv, "BinaryOpExpr", "Left", traceOpts{})
-	}
 	// static types the equality evaluator supports: every representation their producers box has a case
 	var eqSupported map[string]bool
 	if eq := p.MethodByName("BinaryOpExpr", "execEqual"); eq != nil {
@@ -1633,51 +1620,70 @@ func ruleAdmitClass(p *Prog, r *Result) {
 				continue
 			}
 			n++
-			decide := func(cond ssa.Value) int {
-				// a node kind whose ReturnType is a fixed constant other than the assumed type cannot be the operand
-				if ex, ok := cond.(*ssa.Extract); ok && ex.Index == 1 {
-					if ta, ok := ex.Tuple.(*ssa.TypeAssert); ok && isFieldLoad(ta.X, "BinaryOpExpr", "Left") {
-						if nt := namedOf(ta.AssertedType); nt != nil {
-							if ft, fixed := p.fixedReturnType(nt); fixed && ft != tv {
-								return 1
-							}
-						}
-					}
+			// assumption: the operator is `v`, the left operand has static type tv, and wherever the helper compares another
+			// operand's type with the left one they agree. Roles: "left" = the left operand (the field e.Left, or a
+			// parameter bound to it at a call), "node" = the operator node itself.
+			isLeftVal := func(fn *ssa.Function, x ssa.Value, bound map[*ssa.Parameter]string) bool {
+				x = stripConv(x)
+				if pa, ok := x.(*ssa.Parameter); ok {
+					return bound[pa] == "left"
 				}
-				a, ok := condAtom(cond, true)
-				if !ok || (a.Op != token.EQL && a.Op != token.NEQ) {
-					return -1
-				}
-				x, y := a.X, a.Y
-				if _, isC := constInt(x); isC {
-					x, y = y, x
-				}
-				var eq, known bool
-				if c, isC := constInt(y); isC {
-					switch {
-					case isOp(x):
-						eq, known = c == v, true
-					case isLeftRT(x):
-						eq, known = c == tv, true
-					}
-				} else if isRT(x) && isRT(y) {
-					eq, known = true, true
-				}
-				if !known {
-					return -1
-				}
-				if a.Op == token.NEQ {
-					eq = !eq
-				}
-				if eq {
-					return 0
-				}
-				return 1
+				return isFieldLoad(x, "BinaryOpExpr", "Left")
 			}
-			hr := walkAssuming(helper, decide)
+			rtRecvOf := func(c *ssa.Call) ssa.Value {
+				if c.Call.IsInvoke() {
+					return c.Call.Value
+				}
+				if len(c.Call.Args) > 0 {
+					return c.Call.Args[0]
+				}
+				return nil
+			}
+			as := &assumption{p: p}
+			as.leaf = func(fn *ssa.Function, x ssa.Value, bound map[*ssa.Parameter]string) (aval, bool) {
+				if isOp(x) {
+					return aval{kind: 1, i: v}, true
+				}
+				if c, ok := x.(*ssa.Call); ok && isRT(x) {
+					if rv := rtRecvOf(c); rv != nil && isLeftVal(fn, rv, bound) {
+						return aval{kind: 1, i: tv}, true
+					}
+					return aval{}, true // another operand's type: unknown by itself
+				}
+				// ... but equal to the left operand's type wherever the helper compares the two
+				if bo, ok := x.(*ssa.BinOp); ok && (bo.Op == token.EQL || bo.Op == token.NEQ) && isRT(bo.X) && isRT(bo.Y) {
+					if bo.Op == token.EQL {
+						return aval{kind: 2, b: abTrue}, true
+					}
+					return aval{kind: 2, b: abFalse}, true
+				}
+				return aval{}, false
+			}
+			as.typeTest = func(fn *ssa.Function, ta *ssa.TypeAssert, bound map[*ssa.Parameter]string) (abool, bool) {
+				if !isLeftVal(fn, ta.X, bound) {
+					return abBoth, false
+				}
+				if nt := namedOf(ta.AssertedType); nt != nil {
+					if ft, fixed := p.fixedReturnType(nt); fixed && ft != tv {
+						return abFalse, true
+					}
+				}
+				return abBoth, false
+			}
+			as.bind = func(fn *ssa.Function, arg ssa.Value, bound map[*ssa.Parameter]string) string {
+				if isLeftVal(fn, arg, bound) {
+					return "left"
+				}
+				if pa, ok := stripConv(arg).(*ssa.Parameter); ok && (bound[pa] == "node" || (fn == helper && len(fn.Params) > 0 && pa == fn.Params[0])) {
+					return "node"
+				}
+				return ""
+			}
+			res := as.run(helper, map[*ssa.Parameter]string{helper.Params[0]: "node"})
 			accepted := ""
-			for _, b := range orderedBlocks(helper, hr) {
-				if ret := retOf(b); ret != nil && isNilConst(retVal(ret, 0)) {
+			for _, ret := range res.rets {
+				ev := res.ev(retVal(ret, 0))
+				if isNilConst(retVal(ret, 0)) || (ev.kind == 3 && ev.isNil != abFalse) || ev.kind == 0 {
 					accepted = p.InstrPos(ret)
 				}
 			}
